@@ -63,6 +63,7 @@ typedef enum {SYSTEM, USER} LU_space_t;
 
 ExpHeader *sexpanders = 0; /* Array of pointers to 4 types of memory */
 static LU_stack_t stack;
+static int_t        tail_users; /* threads holding work space at the TAIL of the user stack */
 static int_t        no_expand;
 static int_t        ndim;
 static LU_space_t whichspace; /* 0 - system malloc'd; 1 - user provided */
@@ -93,6 +94,7 @@ void psgstrf_SetupSpace(void *work, int_t lwork)
         stack.top1 = 0;
         stack.top2 = lwork;
         stack.array = (void *) work;
+        tail_users = 0;
     }
 #if ( MACH==PTHREAD )
     pthread_mutex_init ( &stack.lock, NULL);
@@ -386,6 +388,7 @@ psgstrf_MemInit(int_t n, int_t annz, superlumt_options_t *superlumt_options,
 	    whichspace = USER;
 	    stack.size = lwork;
 	    stack.top2 = lwork;
+	    tail_users = 0;
 	}
 	
 	lsub  = sexpanders[LSUB].mem  = Lstore->rowind;
@@ -447,8 +450,18 @@ psgstrf_WorkInit(int_t n, int_t panel_size, int_t **iworkptr, float **dworkptr)
     
     if ( whichspace == SYSTEM ) 
 	*iworkptr = (int_t *) intCalloc(isize/sizeof(int_t));
-    else
+    else {
+#if ( MACH==PTHREAD ) /* Use pthread ... */
+        pthread_mutex_lock( &stack.lock );
+#elif ( MACH==OPENMP ) /* Use openMP ... */
+#pragma omp critical ( STACK_LOCK )
+#endif
+	++tail_users;
+#if ( MACH==PTHREAD ) /* Use pthread ... */
+        pthread_mutex_unlock( &stack.lock );
+#endif
 	*iworkptr = (int_t *) suser_malloc(isize, TAIL);
+    }
     if ( ! *iworkptr ) {
 	fprintf(stderr, "psgstrf_WorkInit: malloc fails for local iworkptr[]\n");
 	return (isize + n);
@@ -521,8 +534,12 @@ void psgstrf_WorkFree(int_t *iwork, float *dwork, GlobalLU_t *Glu)
 #pragma omp critical ( STACK_LOCK )
 #endif
         {
-	    stack.used -= (stack.size - stack.top2);
-	    stack.top2 = stack.size;
+	    /* The tail holds the work space of every thread; other threads
+	       may still be running, so only the last one releases it. */
+	    if ( --tail_users <= 0 ) {
+		stack.used -= (stack.size - stack.top2);
+		stack.top2 = stack.size;
+	    }
 	    
 	    /*	psgstrf_StackCompress(Glu);  */
         }
